@@ -6,7 +6,9 @@ A well-formed line (six fields, five integers) is *valid for version v* exactly 
     internal/stream other than id request / id response,
   * the sub-type is defined for the command in v,
   * the payload satisfies the sub-type's rule.
-Tables are mine (MySensors serial API 1.4 - 2.2), not read from the repository.
+Tables are mine (MySensors serial API 1.4 - 2.2), not read from the repository.  Everything is
+written as boolean expressions (no statements) so that the same text serves as a formula inside
+quantified invariants and as executable Python in replays; `version` is always a literal.
 """
 from .prims import comma_parts, float_in, float_ok, int_of, int_ok, is_hex, version_ge_14
 
@@ -26,9 +28,13 @@ I_ID_REQUEST, I_ID_RESPONSE = 3, 4
 
 
 def defined(version, cmd, sub):
-    if cmd < 0 or cmd > 4:
-        return False
-    return 0 <= sub and sub <= MAX_SUB[version][cmd]
+    return 0 <= sub and (
+        (cmd == PRESENTATION and sub <= MAX_SUB[version][PRESENTATION])
+        or (cmd == SET and sub <= MAX_SUB[version][SET])
+        or (cmd == REQ and sub <= MAX_SUB[version][REQ])
+        or (cmd == INTERNAL and sub <= MAX_SUB[version][INTERNAL])
+        or (cmd == STREAM and sub <= MAX_SUB[version][STREAM])
+    )
 
 
 def binary(p):
@@ -44,97 +50,86 @@ def int_range(p, lo, hi):
 
 
 def position(p):
-    parts = comma_parts(p)
-    return len(parts) == 3 and float_ok(parts[0]) and float_ok(parts[1]) and float_ok(parts[2])
+    return len(comma_parts(p)) == 3 and float_ok(comma_parts(p)[0]) and float_ok(comma_parts(p)[1]) and float_ok(comma_parts(p)[2])
+
+
+def hvac_state(p):
+    return p == "Off" or p == "HeatOn" or p == "CoolOn" or p == "AutoChangeOver"
+
+
+def hvac_speed(p):
+    return p == "Min" or p == "Normal" or p == "Max" or p == "Auto"
 
 
 def payload_ok_set(version, sub, p):
-    if sub == 2 or sub == 15 or sub == 16 or sub == 36:
-        return binary(p)
-    if sub == 3:
-        return percent(p)
-    if sub == 21:
-        return p == "Off" or p == "HeatOn" or p == "CoolOn" or p == "AutoChangeOver"
-    if sub == 22:
-        if version == "1.4":
-            return binary(p)
-        return p == "Min" or p == "Normal" or p == "Max" or p == "Auto"
-    if sub == 23:
-        return float_in(p, 0.0, 100.0)
-    if version != "1.4":
-        if sub == 40:
-            return is_hex(p, 6)
-        if sub == 41:
-            return is_hex(p, 8)
-        if sub == 44 or sub == 45:
-            return float_in(p, 0.0, 100.0)
-        if version != "1.5":
-            if sub == 49:
-                return position(p)
-            if sub == 56:
-                return float_in(p, -1.0, 1.0)
-    return True
+    return (
+        (not (sub == 2 or sub == 15 or sub == 16 or sub == 36) or binary(p))
+        and (sub != 3 or percent(p))
+        and (sub != 21 or hvac_state(p))
+        and (sub != 22 or (binary(p) if version == "1.4" else hvac_speed(p)))
+        and (sub != 23 or float_in(p, 0.0, 100.0))
+        and (
+            version == "1.4"
+            or (
+                (sub != 40 or is_hex(p, 6))
+                and (sub != 41 or is_hex(p, 8))
+                and (not (sub == 44 or sub == 45) or float_in(p, 0.0, 100.0))
+                and (version == "1.5" or ((sub != 49 or position(p)) and (sub != 56 or float_in(p, -1.0, 1.0))))
+            )
+        )
+    )
 
 
 def payload_ok_internal(version, sub, p):
-    if sub == 0:
-        return percent(p)
-    if sub == 1:
-        return p == "" or int_ok(p)
-    if sub == 3 or sub == 7 or sub == 13:
-        return p == ""
-    if sub == 4:
-        return int_range(p, 1, 254)
-    if sub == 5:
-        return binary(p)
-    if sub == 6:
-        return int_range(p, 0, 254) or p == "M" or p == "I"
-    if sub == 8:
-        return int_range(p, 0, 254)
-    if version != "1.4" and version != "1.5":
-        if sub == 18 or sub == 19 or sub == 20:
-            return p == ""
-        if sub == 21:
-            return int_range(p, 0, 254)
-        if sub == 22 or sub == 24 or sub == 25:
-            return int_ok(p)
-        if version == "2.2":
-            if sub == 30 or sub == 31 or sub == 32 or sub == 33:
-                return int_ok(p)
-    return True
+    return (
+        (sub != 0 or percent(p))
+        and (sub != 1 or p == "" or int_ok(p))
+        and (not (sub == 3 or sub == 7 or sub == 13) or p == "")
+        and (sub != 4 or int_range(p, 1, 254))
+        and (sub != 5 or binary(p))
+        and (sub != 6 or int_range(p, 0, 254) or p == "M" or p == "I")
+        and (sub != 8 or int_range(p, 0, 254))
+        and (
+            version == "1.4"
+            or version == "1.5"
+            or (
+                (not (sub == 18 or sub == 19 or sub == 20) or p == "")
+                and (sub != 21 or int_range(p, 0, 254))
+                and (not (sub == 22 or sub == 24 or sub == 25) or int_ok(p))
+                and (version != "2.2" or not (sub == 30 or sub == 31 or sub == 32 or sub == 33) or int_ok(p))
+            )
+        )
+    )
 
 
 def payload_ok(version, cmd, sub, p):
-    if cmd == PRESENTATION:
-        if sub == 17 or sub == 18:
-            return version_ge_14(p)
-        return True
-    if cmd == SET:
-        return payload_ok_set(version, sub, p)
-    if cmd == REQ:
-        return p == ""
-    if cmd == INTERNAL:
-        return payload_ok_internal(version, sub, p)
-    return True
+    return (
+        (cmd != PRESENTATION or not (sub == 17 or sub == 18) or version_ge_14(p))
+        and (cmd != SET or payload_ok_set(version, sub, p))
+        and (cmd != REQ or p == "")
+        and (cmd != INTERNAL or payload_ok_internal(version, sub, p))
+    )
 
 
 def child_ok(cmd, sub, child):
-    if child < 0 or child > 255:
-        return False
-    if child == 255 and not (cmd == PRESENTATION or cmd == INTERNAL or cmd == STREAM):
-        return False
-    if (cmd == INTERNAL or cmd == STREAM) and not (cmd == INTERNAL and (sub == I_ID_REQUEST or sub == I_ID_RESPONSE)):
-        return child == 255
-    return True
+    return (
+        0 <= child
+        and child <= 255
+        and (child != 255 or cmd == PRESENTATION or cmd == INTERNAL or cmd == STREAM)
+        and (
+            not (cmd == INTERNAL or cmd == STREAM)
+            or (cmd == INTERNAL and (sub == I_ID_REQUEST or sub == I_ID_RESPONSE))
+            or child == 255
+        )
+    )
 
 
 def valid(version, node, child, cmd, ack, sub, payload):
-    if node < 0 or node > 255:
-        return False
-    if not (ack == 0 or ack == 1):
-        return False
-    if not defined(version, cmd, sub):
-        return False
-    if not child_ok(cmd, sub, child):
-        return False
-    return payload_ok(version, cmd, sub, payload)
+    return (
+        0 <= node
+        and node <= 255
+        and (ack == 0 or ack == 1)
+        and defined(version, cmd, sub)
+        and child_ok(cmd, sub, child)
+        and payload_ok(version, cmd, sub, payload)
+    )
